@@ -1,35 +1,34 @@
 (* Model of the quoted-string readers of the plain-CSS parser
-   (parser/css/strings.rs css_string_dq / css_string_sq), on code points.
+   (parser/css/strings.rs css_string_dq / css_string_sq, since rsass 4637bd2), on code points.
 
-   The loop is many0(alt(is_not(QUOTE) | tag(\QUOTE) | normalized_escaped_char_q)):
-   is_not takes the longest non-empty run without the quote character -
-   backslashes included - so after it the next character is the quote; the
-   other two alternatives can only fire on an input that starts with a
-   backslash FOLLOWED by nothing is_not can take, which never happens (a
-   backslash itself is taken by is_not).  Hence the reader returns the raw text
-   up to the first quote character, escapes undecoded. *)
+   The loop is many0(alt(is_not(QUOTE BACKSLASH) | tag(BACKSLASH QUOTE) -> QUOTE |
+   normalized_escaped_char_q)): plain characters are copied, an escaped quote gives the
+   quote character.  Other backslash escapes (hex escapes, normalisation of control
+   characters, `\\`, `\-`, `\ `) are NOT modelled: on them the model declines (None). *)
 From Coq Require Import List NArith Bool.
 From RV Require Import Base.Text Model.CssStr.
 Import ListNotations.
 Local Open Scope N_scope.
 
-Fixpoint span_not (q : N) (x : list N) : list N * list N :=
+(* Some (value, rest after the closing quote); None = no closing quote, or an escape the
+   model does not cover *)
+Fixpoint read_body (q : N) (x : list N) : option (list N * list N) :=
   match x with
-  | c :: r => if c =? q then ([], x) else let (a, b) := span_not q r in (c :: a, b)
-  | [] => ([], [])
-  end.
-
-(* Some (value, rest) ; None = parse error *)
-Definition read_quoted (q : N) (x : list N) : option (list N * list N) :=
-  match x with
+  | [] => None
   | c :: r =>
-      if c =? q then
-        let (body, rest) := span_not q r in
-        match rest with
-        | c2 :: rest' => if c2 =? q then Some (body, rest') else None
+      if c =? q then Some ([], r)
+      else if c =? 92 then
+        match r with
+        | c2 :: r2 => if c2 =? q then
+                        match read_body q r2 with Some (v, rest) => Some (q :: v, rest) | None => None end
+                      else None
         | [] => None
         end
-      else None
+      else match read_body q r with Some (v, rest) => Some (c :: v, rest) | None => None end
+  end.
+Definition read_quoted (q : N) (x : list N) : option (list N * list N) :=
+  match x with
+  | c :: r => if c =? q then read_body q r else None
   | [] => None
   end.
 Definition read_dq := read_quoted 34.
